@@ -466,6 +466,13 @@ def rule_states(rep):
         for n in enq:
             seen = g.reach([m for lab, m in n.succ], avoid_nodes=incs)
             leaked = [e.tag for e in g.all_exits() if e in seen]
+            if leaked:
+                # the increment may also come between the creation of the candidate (which reads the id) and the enqueue
+                cand = [x for x in g.nodes if x.kind == "stmt" and isinstance(x.ast, ast.Assign) and "LRState(" in unparse(x.ast.value)]
+                after_cand = g.reach([m for c_ in cand for _, m in c_.succ]) if cand else set()
+                pre = [i for i in incs if i in after_cand]
+                if pre and g.dominated_by_nodes(n, pre):
+                    leaked = []
             r.check(
                 not leaked,
                 "every enqueued state takes a fresh state id",
